@@ -14,7 +14,19 @@ EXTRA_TB = {
             "fmt %v of numbers: Base/Fmt.v (exact decimal expansion, <=15 significant digits; validated against Go by the same correspondence)"],
 }
 
+EXTRA_TB["C09"] = [
+  "Go regexp leftmost-first semantics of the three selector patterns is transcribed by hand (Model/SelToken.v m_full/m_array/m_pipe + find_all); tied to the real regexp package by the token-list comparison of every case",
+  "strings.Trim*/Split/SplitN/HasPrefix, strconv.Atoi (64-bit int) modelled concretely; fmt %v/%d/%f and strconv.ParseFloat are executable oracles exact on a stated class and OutOfModel elsewhere (Model/SelFmt.v, Base/Value.fmt_value); sha256+base64 in Distinct assumed injective on the texts that occur",
+  "data of Go type func() (any, error) (Reader's thunk cases) and functions added with RegisterTopLevelFunction are outside the model; MixObject on colliding flattened keys is OutOfModel (Go map iteration order)",
+  "purity (document unchanged) is observed by deep comparison on every case, not proved (trivial in Gallina); the cache is modelled as the identity, its locking belongs to C13",
+]
+
 ASSUME = {
+    "C09": [
+  "documents are JSON-like (nil, bool, float64, string, []any, map[string]any), no NaN/Inf",
+  "C09_parse_print / C09_denotation and corollaries: wf_sel (keys without a quote and without '::'; untyped pipe keys are identifiers; typed pipe keys additionally without | { }; at least one dimension per bracket; indices < 2^63; function names are identifiers)",
+  "OutOfModel cases (pipe/distinct on numbers outside the exactly-formatted class, ParseFloat outside plain decimals, mix key collisions) are skipped and counted",
+    ],
     "C15": ["NaN and infinities are outside the claim (not generated)",
             "integers that do not convert to float64 exactly are outside the claim when compared with a float (skipped as out-of-model, counted)"],
 }
@@ -35,6 +47,7 @@ def assumptions_text(pid):
 
 CONFIG = {
     "C15": {"shard": 1200},
+    "C09": {"shard": 200},
 }
 
 try:
